@@ -366,7 +366,9 @@ def parse_log(out):
 
 def replay_time_loop(times, attempts, eps=2.220446049250313e-16):
     """Follow GenericSolver::execute's time arithmetic (dt = te-ti; `dt *= 0.5` after a refused
-    attempt; `t += dt` after an accepted one; stop when |te-t| < 100 eps (te-ti) or te < t)
+    attempt; `t += dt` after an accepted one; stop when |te-t| < max(100 eps (te-ti), 4 eps max|t|) or te < t;
+    dt clipped to te-t).  The replay only *labels* what the log shows: when the log does not follow it
+    (e.g. the implementation takes one sub-step more) the verdict comes from the imposed-loading comparisons.
     through the accepted/refused attempts listed by the verbose log.
     -> (list of per-interval dicts {ti, te, accepted: [(t_begin, t_end)], t_final, dt_last}, consumed all attempts?)
     The log prints times with 6 digits only: the exact values come from redoing the same IEEE
@@ -376,7 +378,9 @@ def replay_time_loop(times, attempts, eps=2.220446049250313e-16):
     ok = True
     for ti, te in zip(times, times[1:]):
         t, dt = ti, te - ti
-        t_eps = (te - ti) * 100 * eps
+        # end test of GenericSolver::execute (after the fix of the C48 overshoot finding: tolerance relative to |t| as well,
+        # and the sub-step is clipped to the remaining time)
+        t_eps = max((te - ti) * 100 * eps, 4 * eps * max(abs(ti), abs(te)))
         acc = []
         end = False
         while not end:
@@ -397,6 +401,8 @@ def replay_time_loop(times, attempts, eps=2.220446049250313e-16):
                 end = (abs(te - t) < t_eps) or (te < t)
             else:
                 dt *= 0.5
+            if not end and dt > te - t:
+                dt = te - t
         out.append({"ti": ti, "te": te, "accepted": acc, "t_final": t, "dt_last": dt})
         if not ok:
             break
